@@ -120,15 +120,17 @@ class CHECK(core.Check):
                "C14_under_descent_counterexample (D6), C14_over_climb_counterexample (D64): repaired by "
                "fixes/D06-under-loop-check.patch, fixes/D64-over-loop-check.patch (C14_repaired_loops_terminate)",
                "C14_clone_worklist_counterexample (D5: a moot framer cloning itself, directly or through others — the build "
-               "never returns): known finding on the tree as found, C14_clone_worklist_terminates is the partial theorem; "
-               "repaired by fixes/D05-moot-clone-loop.patch (C14_repaired_clone_worklist_terminates, _conservative)",
-               "internal errors that remain reachable are listed in Props/C14.lean `knownCrashSites`"]
+               "never returned): repaired by fixes/D05-moot-clone-loop.patch (C14_repaired_clone_worklist_terminates, "
+               "C14_repaired_clone_worklist_conservative)",
+               "internal errors that remain reachable are listed in Model/Worklist.lean `knownCrashSites` (D67: Store.add's "
+               "bare ValueError for a share path that collides with an existing share or node; D68: IndexError in Act.resolvePath "
+               "for a path that is just `framer`/`frame`/`actor`, fix delivered as fixes/D68-resolvepath-incomplete-relative.patch)"]
     TECHNIQUE = ("Lean 4 theorems (rank / closed-set arguments for the loops, pigeonhole for the repaired loops; decide +kernel "
                  "over the table generated from the source) + differential correspondence on link structures + mutation fuzzing "
                  "of scripts against the stated outcome classes")
     LEVEL_TEXT = ("PARTIAL. Proved: the resolve loops end when a rank decreases along the links and cannot end on a cycle "
                   "(under descent, over climb with its self-only loop test, clone worklist; counterexamples D6, D64, D5), the "
-                  "repaired loops end on every input (C14_repaired_loops_terminate); every message construction of the "
+                  "repaired loops end on every input (C14_repaired_loops_terminate, C14_repaired_clone_worklist_terminates); every message construction of the "
                   "builder-side modules gets as many values as it consumes and no function loads an unbound name "
                   "(C14_error_messages_well_formed, C14_no_unbound_names, over the table regenerated from the tree: 496 sites); "
                   "the exception table of Builder.build. Not proved: that no other statement of building.py raises an internal "
@@ -282,7 +284,7 @@ class CHECK(core.Check):
         return "script:" + (cls if cls in ("ok", "failed", "ParseError", "ValueError", "HANG") else "other-" + cls)
 
     def region(self, finding, case):
-        """the Lean table `knownCrashSites` (Props/C14.lean) maps (exception class, function) to finding ids"""
+        """the Lean table `knownCrashSites` (Model/Worklist.lean) maps (exception class, function) to finding ids"""
         cls, fn, _ = self.run(case)
         cache = self.__dict__.setdefault("_sites", {})
         if (cls, fn) not in cache:
